@@ -79,6 +79,12 @@ CLAIMS = {
          "DESIGN.md §3 C17",
          "Trusted: objects built by the enumerated idioms satisfy n*cols*size*size_of(Scalar) <= data.len(); kernel-internal index arithmetic.",
          "MIR polynomial bound check of accessor offsets + construction/mutation site idiom matching + shared taint/ownership rules", True),
+
+ "C10": ("other",
+         "Wiring agreement on MIR of the AVX configuration the test suite never compiles: all 208 HalImpl methods of the Ref and AVX backend of each family forward to the same shared shape function (one reasoned exception); kernel-trait tables agree and each of ~100 AVX kernel methods is the twin of the Ref kernel (same function, falls back to it, same name stem, or one of four frozen name pairs); the sampling chain is shared and backend independent; small/FFT64-big/NTT120-big siblings agree on limb coverage; every target_feature kernel with a `len >> k` trip count handles the remainder; AVX normalisation step kernels apply the digit/carry helpers per lsh branch as often as their reference twins. Bit-equality of kernel arithmetic is not decided.",
+         "DESIGN.md §3 C10",
+         "Trusted: arithmetic inside matched twins; FFT64 vs NTT120 numerical agreement.",
+         "impl-table / call-graph comparison across backends + loop-remainder and helper-skeleton analysis of SIMD kernels", True),
 }
 NOT_BUILT = {}
 
